@@ -11,6 +11,11 @@ pub mod h_format_setters;
 pub mod h_swar;
 pub mod h_float_tok;
 pub mod h_special;
+pub mod h_bound;
+#[cfg(feature = "power-of-two")]
+pub mod h_float_bin;
+#[cfg(feature = "power-of-two")]
+pub mod h_float_wbin;
 #[cfg(not(feature = "compact"))]
 pub mod h_dragonbox;
 #[cfg(feature = "format")]
@@ -38,6 +43,11 @@ pub fn all_harnesses() -> Vec<Harness> {
     v.extend_from_slice(h_swar::HARNESSES);
     v.extend_from_slice(h_float_tok::HARNESSES);
     v.extend_from_slice(h_special::HARNESSES);
+    v.extend_from_slice(h_bound::HARNESSES);
+    #[cfg(feature = "power-of-two")]
+    v.extend_from_slice(h_float_bin::HARNESSES);
+    #[cfg(feature = "power-of-two")]
+    v.extend_from_slice(h_float_wbin::HARNESSES);
     #[cfg(not(feature = "compact"))]
     v.extend_from_slice(h_dragonbox::HARNESSES);
     #[cfg(feature = "format")]
